@@ -4,6 +4,7 @@ Helper lemmas for C08: iterating `resolution_delta`, the finished walks, the win
 -/
 import Bermuda.Model.Aggregate
 import Bermuda.Lemmas.Summarize
+import Bermuda.Lemmas.Sort
 namespace Bermuda
 
 /-! ### iterating the resolution step -/
@@ -260,5 +261,157 @@ theorem sum_filter_eq_indicator {α} (l : List α) (p : α → Bool) (g : α →
   | cons a l ih =>
     rw [List.filter_cons]
     split <;> simp_all [List.sum_cons, Rat.zero_add]
+
+open Std
+
+/-! ### date order -/
+
+theorem Date.lt_iff_agg (a b : Date) :
+    a < b ↔ a.y < b.y ∨ (a.y = b.y ∧ (a.m < b.m ∨ (a.m = b.m ∧ a.d < b.d))) := by
+  show Date.cmp a b = .lt ↔ _
+  simp only [Date.cmp, compareLex, cmpOn, Ordering.then_eq_lt, Int.compare_eq_lt, Nat.compare_eq_lt,
+    compare_eq_iff_eq]
+
+theorem Date.lt_of_lt_of_not_lt_agg {a b c : Date} (h1 : a < b) (h2 : ¬ c < b) : a < c := by
+  rw [Date.lt_iff_agg] at *; omega
+
+theorem Date.lt_asymm_agg {a b : Date} (h : a < b) : ¬ b < a := by
+  rw [Date.lt_iff_agg] at *; omega
+
+/-! ### the window containing a date -/
+
+/-- window `k` is the FIRST window (counted from the anchor) whose end is not before `d` -/
+def FirstWindow (q : Int) (u : ResUnit) (init : Date) (k : Nat) (d : Date) : Prop :=
+  (∀ j < k, (windowAt q u init j).2 < d) ∧ ¬ ((windowAt q u init k).2 < d)
+
+theorem FirstWindow.unique {q : Int} {u : ResUnit} {init : Date} {k k' : Nat} {d : Date}
+    (h : FirstWindow q u init k d) (h' : FirstWindow q u init k' d) : k = k' := by
+  rcases Nat.lt_trichotomy k k' with hlt | heq | hgt
+  · exact absurd (h'.1 k hlt) h.2
+  · exact heq
+  · exact absurd (h.1 k' hgt) h'.2
+
+theorem mem_zip_of_mem_left {α β} {l₁ : List α} {l₂ : List β} (hlen : l₂.length = l₁.length) {a : α}
+    (ha : a ∈ l₁) : ∃ b, (a, b) ∈ l₁.zip l₂ := by
+  induction l₁ generalizing l₂ with
+  | nil => simp at ha
+  | cons x l₁ ih =>
+    cases l₂ with
+    | nil => simp at hlen
+    | cons y l₂ =>
+      rcases List.mem_cons.mp ha with rfl | ha
+      · exact ⟨y, by simp⟩
+      · obtain ⟨b, hb⟩ := ih (by simpa using hlen) ha
+        exact ⟨b, by simp [hb]⟩
+
+/-- with the cells sorted by period start, the carried `current_init` always reaches the FIRST window whose end
+is not before the cell's start -/
+theorem assignWindows_first {q : Int} {u : ResUnit} {init0 : Date} {k0 : Nat} {cells rel : List Cell}
+    (hs : cells.Pairwise (fun a b => ¬ b.ps < a.ps))
+    (hinv : ∀ c ∈ cells, ∀ j < k0, (windowAt q u init0 j).2 < c.ps)
+    (h : assignWindows q u (iterD q u k0 init0) cells = .ok rel) :
+    ∀ p ∈ cells.zip rel, ∃ k, FirstWindow q u init0 k p.1.ps ∧ p.2.pe = (windowAt q u init0 k).2 := by
+  induction cells generalizing k0 rel with
+  | nil => simp only [assignWindows] at h; cases h; simp
+  | cons c rest ih =>
+    simp only [assignWindows] at h
+    split at h
+    · cases h
+    · rename_i init' hw
+      split at h
+      · cases h
+      · split at h
+        · cases h
+        · rename_i nc hnc
+          split at h
+          · cases h
+          · rename_i ncs hncs
+            cases h
+            obtain ⟨k1, hk1, hstop, hbelow⟩ := walkUp_spec hw
+            have hnc' := Cell.mk?_ok hnc
+            have hinit' : init' = iterD q u (k0 + k1) init0 := by rw [hk1, iterD_add]
+            have hfirst : FirstWindow q u init0 (k0 + k1) c.ps := by
+              refine ⟨?_, ?_⟩
+              · intro j hj
+                by_cases hj0 : j < k0
+                · exact hinv c (by simp) j hj0
+                · have := hbelow (j - k0) (by omega)
+                  rw [iterD_add] at this
+                  have e : k0 + (j - k0 + 1) = j + 1 := by omega
+                  rw [e] at this
+                  exact this
+              · show ¬ (iterD q u (k0 + k1 + 1) init0 < c.ps)
+                rw [iterD_succ', ← hinit']; exact hstop
+            intro p hp
+            rw [List.zip_cons_cons, List.mem_cons] at hp
+            rcases hp with rfl | hp
+            · refine ⟨k0 + k1, hfirst, ?_⟩
+              simp only [hnc']
+              show resolutionDelta init' q u = iterD q u (k0 + k1 + 1) init0
+              rw [iterD_succ', ← hinit']
+            · have hs' := List.pairwise_cons.mp hs
+              rw [hinit'] at hncs
+              exact ih hs'.2 (fun c' hc' j hj =>
+                Date.lt_of_lt_of_not_lt_agg (hfirst.1 j hj) (hs'.1 c' hc')) hncs p hp
+
+/-- … and a `TriangleError` comes from a cell whose period crosses the end of that window -/
+theorem assignWindows_triangleError_first {q : Int} {u : ResUnit} {init0 : Date} {k0 : Nat}
+    {cells : List Cell} (hs : cells.Pairwise (fun a b => ¬ b.ps < a.ps))
+    (hinv : ∀ c ∈ cells, ∀ j < k0, (windowAt q u init0 j).2 < c.ps)
+    (h : assignWindows q u (iterD q u k0 init0) cells = .error .triangleError) :
+    ∃ c ∈ cells, ∃ k, FirstWindow q u init0 k c.ps ∧ (windowAt q u init0 k).2 < c.pe := by
+  induction cells generalizing k0 with
+  | nil => simp [assignWindows] at h
+  | cons c rest ih =>
+    simp only [assignWindows] at h
+    split at h
+    · cases h
+    · rename_i init' hw
+      obtain ⟨k1, hk1, hstop, hbelow⟩ := walkUp_spec hw
+      have hinit' : init' = iterD q u (k0 + k1) init0 := by rw [hk1, iterD_add]
+      have hfirst : FirstWindow q u init0 (k0 + k1) c.ps := by
+        refine ⟨?_, ?_⟩
+        · intro j hj
+          by_cases hj0 : j < k0
+          · exact hinv c (by simp) j hj0
+          · have := hbelow (j - k0) (by omega)
+            rw [iterD_add] at this
+            have e : k0 + (j - k0 + 1) = j + 1 := by omega
+            rw [e] at this
+            exact this
+        · show ¬ (iterD q u (k0 + k1 + 1) init0 < c.ps)
+          rw [iterD_succ', ← hinit']; exact hstop
+      split at h
+      · rename_i hlt
+        refine ⟨c, by simp, k0 + k1, hfirst, ?_⟩
+        show iterD q u (k0 + k1 + 1) init0 < c.pe
+        rw [iterD_succ', ← hinit']; exact hlt
+      · split at h
+        · rename_i e he
+          cases h
+          unfold Cell.mk? at he
+          split at he <;> cases he
+        · split at h
+          · rename_i e he
+            cases h
+            have hs' := List.pairwise_cons.mp hs
+            rw [hinit'] at he
+            obtain ⟨c', hc', k, h1, h2⟩ := ih hs'.2 (fun c' hc' j hj =>
+              Date.lt_of_lt_of_not_lt_agg (hfirst.1 j hj) (hs'.1 c' hc')) he
+            exact ⟨c', by simp [hc'], k, h1, h2⟩
+          · cases h
+
+/-- sorting by `(ps, pe, ev)` sorts by period start -/
+theorem sorted_by_ps (t : List Cell) :
+    (t.mergeSort fun a b => coordCmp a b != .gt).Pairwise (fun a b => ¬ b.ps < a.ps) := by
+  haveI : TransCmp coordCmp := by unfold coordCmp; infer_instance
+  have := sorted_mergeSort (cmp := coordCmp) t
+  refine this.imp ?_
+  intro a b hab hlt
+  have hlt' : Date.cmp b.ps a.ps = .lt := hlt
+  have hgt : Date.cmp a.ps b.ps = .gt := by
+    rw [OrientedCmp.eq_swap (cmp := Date.cmp), hlt']; rfl
+  simp [leOf, coordCmp, compareLex, cmpOn, hgt] at hab
+
 
 end Bermuda
